@@ -7,7 +7,7 @@ UD = ["LIBCOAP_VERIF_NO_PARSE_DUMP"]
 
 META = {
     "bounds": "B1: coap_op_dyn_resource_added / coap_op_resource_deleted on a store holding 0-2 records (names 'a','b', 4 symbolic "
-              "packet bytes each) and coap_op_obs_cnt_track_observe on a counter file with one line, with EVERY crash point enumerated "
+              "packet bytes each) and coap_op_obs_cnt_track_observe on a counter file with one line (concrete counter values: scripted), with EVERY crash point enumerated "
               "(one job per k: the process dies before the k-th disk-changing stdio call, or not at all; record bytes symbolic): the file under the real name is "
               "the complete old or the complete new image; B2: add a, add b, restart: coap_op_dyn_resource_load_disk replays both "
               "creating requests; L1: saved counter 0..9999 (multiple of save_freq), save_freq 1..10: first Observe value after "
